@@ -240,6 +240,11 @@ fn job_mc(job: &Value) -> Result<Value, String> {
         runs.push(r);
     }
     out["runs"] = Value::Array(runs);
+    if let Some(ops) = job.get("libops").and_then(|x| x.as_array()) {
+        let mut res = Vec::new();
+        for op in ops { res.push(lib_op(op, &stg, &bn, &named)?); }
+        out["libops"] = Value::Array(res);
+    }
     // the canonical (plain) graph, for C15
     if job.get("plain").and_then(|x| x.as_bool()).unwrap_or(false) {
         let plain = SymbolicAsyncGraph::new(&bn)?;
@@ -313,6 +318,44 @@ fn job_text(job: &Value) -> Result<Value, String> {
     })
 }
 
+fn lib_op(op: &Value, stg: &SymbolicAsyncGraph, bn: &BooleanNetwork, named: &HashMap<String, GraphColoredVertices>) -> Result<Value, String> {
+    let stg = stg.clone();
+    let stg = &stg;
+    let name = op["op"].as_str().unwrap();
+    let a = if op.get("a").is_some() { Some(eval_set(&op["a"], stg, bn, named)?) } else { None };
+    let var = op.get("var").and_then(|x| x.as_u64()).map(|i| stg.variables().nth(i as usize).unwrap());
+    let r: Value = match name {
+
+            "id" => bdd_s(a.as_ref().unwrap()),
+            "pre" => bdd_s(&stg.pre(a.as_ref().unwrap())),
+            "post" => bdd_s(&stg.post(a.as_ref().unwrap())),
+            "var_pre" => bdd_s(&stg.var_pre(var.unwrap(), a.as_ref().unwrap())),
+            "var_post" => bdd_s(&stg.var_post(var.unwrap(), a.as_ref().unwrap())),
+            "reach_backward" => bdd_s(&stg.reach_backward(a.as_ref().unwrap())),
+            "trap_forward" => bdd_s(&stg.trap_forward(a.as_ref().unwrap())),
+            "reach_bwd" => bdd_s(&biodivine_lib_param_bn::symbolic_async_graph::reachability::Reachability::reach_bwd(stg, a.as_ref().unwrap())),
+            "reach_bwd_within" => {
+                let b = eval_set(&op["b"], stg, bn, named)?;
+                let g = stg.restrict(&b.union(a.as_ref().unwrap()));
+                bdd_s(&biodivine_lib_param_bn::symbolic_async_graph::reachability::Reachability::reach_bwd(&g, a.as_ref().unwrap()))
+            }
+            "steady" => bdd_s(&biodivine_hctl_model_checker::evaluation::algorithm::compute_steady_states(stg)),
+            "attractors" => bdd_s(&biodivine_hctl_model_checker::evaluation::algorithm::compute_attractor_states(stg, a.as_ref().unwrap_or(stg.unit_colored_vertices()))),
+            "state_var_true" => json!(stg.symbolic_context().mk_state_variable_is_true(var.unwrap()).to_string()),
+            "restrict" => {
+                // with_custom_context on unit & a
+                let nu = stg.unit_colored_vertices().intersect(a.as_ref().unwrap());
+                match catch_unwind(AssertUnwindSafe(|| SymbolicAsyncGraph::with_custom_context(bn, stg.symbolic_context().clone(), nu.into_bdd()))) {
+                    Ok(Ok(g)) => json!({"unit": g.unit_colored_vertices().as_bdd().to_string()}),
+                    Ok(Err(e)) => json!({"err": e}),
+                    Err(p) => json!({"panic": panic_msg(p)}),
+                }
+            }
+            _ => return Err(format!("unknown lib op {name}")),
+    };
+    Ok(r)
+}
+
 /// library conformance: run library operations on sets, return BDDs
 fn job_lib(job: &Value) -> Result<Value, String> {
     let bn = load_bn(job)?;
@@ -322,30 +365,7 @@ fn job_lib(job: &Value) -> Result<Value, String> {
     let named = HashMap::new();
     let mut res = Vec::new();
     for op in job["ops"].as_array().unwrap() {
-        let name = op["op"].as_str().unwrap();
-        let a = if op.get("a").is_some() { Some(eval_set(&op["a"], &stg, &bn, &named)?) } else { None };
-        let var = op.get("var").and_then(|x| x.as_u64()).map(|i| stg.variables().nth(i as usize).unwrap());
-        let r: Value = match name {
-            "id" => bdd_s(a.as_ref().unwrap()),
-            "pre" => bdd_s(&stg.pre(a.as_ref().unwrap())),
-            "post" => bdd_s(&stg.post(a.as_ref().unwrap())),
-            "var_pre" => bdd_s(&stg.var_pre(var.unwrap(), a.as_ref().unwrap())),
-            "var_post" => bdd_s(&stg.var_post(var.unwrap(), a.as_ref().unwrap())),
-            "steady" => bdd_s(&biodivine_hctl_model_checker::evaluation::algorithm::compute_steady_states(&stg)),
-            "attractors" => bdd_s(&biodivine_hctl_model_checker::evaluation::algorithm::compute_attractor_states(&stg, a.as_ref().unwrap_or(stg.unit_colored_vertices()))),
-            "state_var_true" => json!(stg.symbolic_context().mk_state_variable_is_true(var.unwrap()).to_string()),
-            "restrict" => {
-                // with_custom_context on unit & a
-                let nu = stg.unit_colored_vertices().intersect(a.as_ref().unwrap());
-                match catch_unwind(AssertUnwindSafe(|| SymbolicAsyncGraph::with_custom_context(&bn, stg.symbolic_context().clone(), nu.into_bdd()))) {
-                    Ok(Ok(g)) => json!({"unit": g.unit_colored_vertices().as_bdd().to_string()}),
-                    Ok(Err(e)) => json!({"err": e}),
-                    Err(p) => json!({"panic": panic_msg(p)}),
-                }
-            }
-            _ => return Err(format!("unknown lib op {name}")),
-        };
-        res.push(r);
+        res.push(lib_op(op, &stg, &bn, &named)?);
     }
     out["res"] = Value::Array(res);
     Ok(out)
